@@ -52,14 +52,18 @@ def camel2underscore(name: str, digits_lower: bool) -> str:
 
 def reachable_handlers(repo) -> dict[str, str]:
     """handler name -> UFL class, for the classes _ufl_call_lookup maps to _math_function."""
-    m = repo.mod(LNODES)
-    table = m.assign("_ufl_call_lookup")
+    from ..absint import Interp, _Cls
+    from ..lnodes_model import load_classes
+
+    it = Interp(repo, load_classes(repo), primary=LNODES).install_ufl_classes(LNODES)
+    table = it.module_value(LNODES, "_ufl_call_lookup")   # as module initialisation leaves it (literal entries and entries added in loops)
+    if not isinstance(table, dict):
+        raise AnalysisError("lnodes._ufl_call_lookup is not a dict")
     dl = _camel2underscore_variant()
     out = {}
-    for k, v in zip(table.keys, table.values):
-        if isinstance(v, ast.Name) and v.id == "_math_function":
-            cls = (dotted(k) or "").split(".")[-1]
-            out[camel2underscore(cls, dl)] = cls
+    for k, v in table.items():
+        if hasattr(v, "node") and getattr(v.node, "name", None) == "_math_function" and isinstance(k, _Cls):
+            out[camel2underscore(k.name, dl)] = k.name
     if len(out) < 20:
         raise AnalysisError("fewer than 20 math operators mapped to _math_function")
     return out
@@ -206,17 +210,38 @@ def math_tables(repo, res):
             res.fail(key, f"numba formatter emits `{text}` for {ucls}: arguments changed", nm.rel, props=("C18",))
         if fn.startswith("scipy") and "import scipy" not in const_value(repo.mod("ffcx.codegeneration.numba.file_template").assign("factory")):
             res.fail(key, f"numba formatter emits `{fn}` but the file template does not import scipy", nm.rel, props=("C18",))
-    # _math_function folding of complex-only functions on REAL operands
+    # _math_function folding of complex-only functions on REAL operands: the function is interpreted on sample operators
+    from ..absint import Interp as _I3, Node as _N3, Raised as _R3
+    from ..lnodes_model import load_classes as _lc3
+
     lm = repo.mod(LNODES)
     mf = lm.func("_math_function")
+    res.functions.add(mf.key)
     key = f"{mf.key}:real-folding"
     res.ob(key)
-    ms = ast.unparse(mf.node)
-    if not (re.search(r"if name in \('conj', 'real'\) and dtype == DataType\.REAL:\s+assert len\(args\) == 1\s+return args\[0\]", ms)
-            and re.search(r"if name == 'imag' and dtype == DataType\.REAL:\s+assert len\(args\) == 1\s+return LiteralFloat\(0\.0\)", ms)
-            and "return MathFunction(name, args)" in ms and "name = op._ufl_handler_name_" in ms and "dtype = args[0].dtype" in ms):
-        res.fail(key, "_math_function: conj/real of a REAL operand must be the operand, imag must be 0.0, everything else a MathFunction of "
-                 "the UFL handler name", lm.line(mf.node), props=("C09",))
+    it3 = _I3(repo, _lc3(repo), primary=LNODES)
+    xr, xs = it3.construct("Symbol", ["x", "DataType.REAL"], {}), it3.construct("Symbol", ["z", "DataType.SCALAR"], {})
+
+    def shape(v):
+        if v is xr:
+            return "the operand"
+        if isinstance(v, _N3) and v.cls == "LiteralFloat":
+            return f"literal {float(v.f['value'])}"
+        if isinstance(v, _N3) and v.cls == "MathFunction":
+            return f"MathFunction({v.f['function']}, {len(v.f['args'])} args)"
+        return repr(v)
+    cases = [("conj", [xr], "the operand"), ("real", [xr], "the operand"), ("imag", [xr], "literal 0.0"), ("conj", [xs], "MathFunction(conj, 1 args)"),
+             ("real", [xs], "MathFunction(real, 1 args)"), ("imag", [xs], "MathFunction(imag, 1 args)"), ("sqrt", [xr], "MathFunction(sqrt, 1 args)"),
+             ("power", [xr, xs], "MathFunction(power, 2 args)"), ("abs", [xr], "MathFunction(abs, 1 args)")]
+    for hname, args_, want_ in cases:
+        try:
+            got_ = shape(it3.call_f(mf, [_N3("UflOperator", _ufl_handler_name_=hname)] + list(args_)))
+        except _R3 as e:
+            got_ = f"raises {e.what}"
+        if got_ != want_:
+            res.fail(key, f"_math_function for `{hname}` of {'a REAL' if args_[0] is xr else 'a SCALAR'} operand gives {got_}, expected {want_}: conj/real of a real-typed operand are the "
+                     "operand itself, imag of it is 0.0, everything else a MathFunction of the UFL handler name with all its arguments", lm.line(mf.node), props=("C09",))
+            break
 
 
 @rule(
@@ -284,12 +309,7 @@ def backend_sibling(repo, res):
     # both numba generators use the sizes for the right views
     for kind in ("integral", "expression"):
         g = repo.mod(f"ffcx.codegeneration.numba.{kind}").func("generator")
-        src = ast.unparse(g.node)
-        key = f"numba.{kind}:views"
-        res.ob(key)
-        for arr, fld in (("A", "A"), ("w", "w"), ("c", "c"), ("coordinate_dofs", "coords"), ("entity_local_index", "local_index"), ("quadrature_permutation", "permutation")):
-            if not re.search(rf"{arr} = numba\.carray\(_{arr}, \(\{{sizes\.{fld}\}}\)\)", src):
-                res.fail(key, f"numba {kind} kernel does not view _{arr} with size sizes.{fld}", g.module.line(g.node), props=("C18",))
+        # which size each argument view gets: GEN-INTEGRAL / GEN-EXPRESSION-DESC (generators interpreted, emitted views read back)
         t = const_value(repo.mod(f"ffcx.codegeneration.numba.{kind}_template").assign("factory"))
         key = f"numba.{kind}_template:params"
         res.ob(key)
@@ -517,7 +537,25 @@ def type_roles(repo, res):
                 return
 
     gate("ffcx.analysis", "_analyze_expression", "remove_complex_nodes", False, "remove-complex-nodes")
-    gate("ffcx.codegeneration.C.file", "generator", "complex.h", True, "complex.h")
+    # <complex.h> is included exactly for complex scalar types: the C file generator is interpreted per scalar type and its text read back
+    from .genintegral import sample_file_output
+
+    fg = repo.mod("ffcx.codegeneration.C.file").func("generator")
+    res.functions.add(fg.key)
+    key = f"{fg.key}:complex.h"
+    res.ob(key)
+    for nm in ("float32", "float64", "complex64", "complex128"):
+        try:
+            (pre, _post), _g = sample_file_output(repo, "C", nm)
+        except _R as e:
+            res.fail(key, f"C file generator raises ({e.what}) for scalar type {nm}", repo.mod("ffcx.codegeneration.C.file").line(fg.node))
+            break
+        has = any(re.search(r"#\s*include\s*<complex\.h>", t_) for t_ in pre)
+        if has != nm.startswith("complex"):
+            res.fail(key, f"for scalar type {nm} the generated files {'include' if has else 'do not include'} <complex.h>; it must be included exactly for complex scalar "
+                     "types (`double _Complex`, `I`, `creal` are used by complex kernels; in real mode `I` would shadow user identifiers)",
+                     repo.mod("ffcx.codegeneration.C.file").line(fg.node))
+            break
     an = repo.mod("ffcx.analysis")
     f = an.func("_analyze_form")
     key = f"{f.key}:complex_mode"
